@@ -23,9 +23,9 @@ import itertools
 import numpy as np
 
 PROP = "C46"
-N = {"quick": 2000, "thorough": 200000}
+N = {"quick": 2000, "thorough": 80000}
 WORKERS = {"quick": 4, "thorough": 16}
-TIMEOUT = {"quick": 300, "thorough": 900}
+TIMEOUT = {"quick": 300, "thorough": 3000}
 CASE_TIMEOUT = 60.0
 RULE = ("histories of 1-10 add() batches (1-8 coordinates each, drawn with replacement "
         "from a per-history pool of 2-14 integer coordinates in [-2,2]^d, d=1..4, so that "
